@@ -882,3 +882,408 @@ Example C03_mode_anchor_witness :
        (bp_exec e 10 ex_root_Aab (fun p => p)) 2 (-1) = Ok None /\
   find e 10 ex_root_Aab false 0 (-1) = Ok (Some {| pos := 2; caps := [(0, [(0, 2)])] |}).
 Proof. vm_compute. repeat split; reflexivity. Qed.
+
+
+(* =========================================================================================
+   End to end, second part (Proofs/ComposeFinder.v): the modes whose fact C04 proves for the analyses of
+   Model/Analysis2.v (C04_fixed_distance_sets_sound, C04_fixed_distance_char/string_sound,
+   C04_literal_after_loop_sound, C04_prefixes_sound, C04_ci_prefix_sound, C04_landmark_chain_sound,
+   C04_first_chars_prefix_sound) composed with the finder theorems above:
+       the published DATA is the analysis function's output  =>  scanning with the finder of that mode in
+       front returns what Spec.find (the accelerator-free scan) returns.
+   The mode decision itself (the ladder of optimizations.go) is not modelled: [g] is ANY FindOptimizations
+   record with that mode whose data fields are the analysis' output, MinRequiredLength = f_min (facts ...).
+   Common hypotheses as in the first part (shape_ok / no_ci_lit / look_ok, attempts have fuel, (H3)).
+   Residual hypotheses, stated where they are needed:
+     tie      forall id x, set_in e id x = char_in cat_in (set_cls sets id) x  -- the semantics' class oracle
+              answers as the C16 model's CharIn on the exported class table (with forallb cls_good_b sets);
+              the finder's CharIn oracle for a PUBLISHED (possibly merged) set is char_in of its structure
+              ([cf_set_in]), for tree sets it is the semantics' own oracle;
+     text     runes in 0..0x10FFFF (sets, char, string, first chars) / valid scalars (literal after loop);
+              tlen e < INF;
+     lower    ToLower on the ASCII upper-case letters: lower e u = u + 32 for 65 <= u <= 90 (ignore-case modes);
+     utf8     a case-sensitive LiteralAfterLoop.String is valid UTF-8 (always true of a real pattern);
+     data     LeadingPrefixes is non-empty (the ladder selects the mode only then).
+   [cf_fdsets] / [cf_lal] / [cf_chain] translate the analysis' records (class structures, tree set ids)
+   into the records the runner reads (set ids).
+   ========================================================================================= *)
+From Verif Require Import Model.CharClass Model.Analysis2 Proofs.ComposeFinder.
+
+(* FixedDistanceSets_LeftToRight / LeadingSet_LeftToRight: L = any non-empty selection (the quality sort and
+   the truncation only select and reorder) of the sets findFixedDistanceSets computes *)
+Theorem C03_mode_fixed_distance_sets_sound_e2e :
+  forall (e : env) (fuel : nat) (root : node) (bumpq : Z -> Z) (later_useful : bool),
+    shape_ok false root = true -> no_ci_lit root = true -> look_ok root = true ->
+    (forall x, 0 <= x <= tlen e -> exists r, attempt e fuel root x = Ok r) ->
+    sc_H3 st (tlen e) false (bp_exec e fuel root bumpq) ->
+    forall (cat_in : Z -> Z -> bool) (sets : list cls),
+    forallb cls_good_b sets = true ->
+    (forall id x, set_in e id x = char_in cat_in (set_cls sets id) x) ->
+    (forall i, 0 <= char_at e i <= 1114111) -> tlen e < INF -> lits_ok root = true ->
+    forall (thorough : bool) (L : list Analysis2.fdset) (g : fdopts),
+    L <> [] -> (forall f0, In f0 L -> In f0 (find_fixed_distance_sets cat_in sets thorough root)) ->
+    fo_mode g = FM_LeadingSet_LeftToRight \/ fo_mode g = FM_FixedDistanceSets_LeftToRight ->
+    fo_minreq g = f_min (facts false later_useful root) -> fo_sets g = cf_fdsets L ->
+    forall start prevlen, 0 <= start <= tlen e ->
+    exists r, find e fuel root false start prevlen = Ok r /\
+      scan (tlen e) false (f_min (facts false later_useful root))
+           (fd_total (fd_optimized_finder (txt e) (cf_set_in cat_in L) (lower e) g))
+           (bp_exec e fuel root bumpq) start prevlen = Ok r.
+Proof. exact cf_mode_fixed_distance_sets_sound. Qed.
+Print Assumptions C03_mode_fixed_distance_sets_sound_e2e.
+
+(* FixedDistanceChar_LeftToRight: a published set whose Chars is one valid, non-negated rune *)
+Theorem C03_mode_fixed_distance_char_sound_e2e :
+  forall (e : env) (fuel : nat) (root : node) (bumpq : Z -> Z) (later_useful : bool),
+    shape_ok false root = true -> no_ci_lit root = true -> look_ok root = true ->
+    (forall x, 0 <= x <= tlen e -> exists r, attempt e fuel root x = Ok r) ->
+    sc_H3 st (tlen e) false (bp_exec e fuel root bumpq) ->
+    forall (cat_in : Z -> Z -> bool) (sets : list cls),
+    forallb cls_good_b sets = true ->
+    (forall id x, set_in e id x = char_in cat_in (set_cls sets id) x) ->
+    (forall i, 0 <= char_at e i <= 1114111) -> tlen e < INF -> lits_ok root = true ->
+    forall (thorough : bool) (f0 : Analysis2.fdset) (c : Z) (g : fdopts),
+    In f0 (find_fixed_distance_sets cat_in sets thorough root) -> fds_single f0 = Some c ->
+    fo_mode g = FM_FixedDistanceChar_LeftToRight -> fo_minreq g = f_min (facts false later_useful root) ->
+    fo_fdl_c g = c -> fo_fdl_distance g = fs_dist f0 ->
+    forall (set_in' : Z -> Z -> bool) start prevlen, 0 <= start <= tlen e ->
+    exists r, find e fuel root false start prevlen = Ok r /\
+      scan (tlen e) false (f_min (facts false later_useful root))
+           (fd_total (fd_optimized_finder (txt e) set_in' (lower e) g))
+           (bp_exec e fuel root bumpq) start prevlen = Ok r.
+Proof. exact cf_mode_fixed_distance_char_sound. Qed.
+Print Assumptions C03_mode_fixed_distance_char_sound_e2e.
+
+(* FixedDistanceString_LeftToRight: the string findFixedDistanceString extracts from the published sets *)
+Theorem C03_mode_fixed_distance_string_sound_e2e :
+  forall (e : env) (fuel : nat) (root : node) (bumpq : Z -> Z) (later_useful : bool),
+    shape_ok false root = true -> no_ci_lit root = true -> look_ok root = true ->
+    (forall x, 0 <= x <= tlen e -> exists r, attempt e fuel root x = Ok r) ->
+    sc_H3 st (tlen e) false (bp_exec e fuel root bumpq) ->
+    forall (cat_in : Z -> Z -> bool) (sets : list cls),
+    forallb cls_good_b sets = true ->
+    (forall id x, set_in e id x = char_in cat_in (set_cls sets id) x) ->
+    (forall i, 0 <= char_at e i <= 1114111) -> tlen e < INF -> lits_ok root = true ->
+    forall (thorough : bool) (str : list Z) (d0 : Z) (g : fdopts),
+    find_fixed_distance_string (find_fixed_distance_sets cat_in sets thorough root) = Some (str, d0) ->
+    fo_mode g = FM_FixedDistanceString_LeftToRight -> fo_minreq g = f_min (facts false later_useful root) ->
+    fo_fdl_s g = str -> fo_fdl_distance g = d0 ->
+    forall (set_in' : Z -> Z -> bool) start prevlen, 0 <= start <= tlen e ->
+    exists r, find e fuel root false start prevlen = Ok r /\
+      scan (tlen e) false (f_min (facts false later_useful root))
+           (fd_total (fd_optimized_finder (txt e) set_in' (lower e) g))
+           (bp_exec e fuel root bumpq) start prevlen = Ok r.
+Proof. exact cf_mode_fixed_distance_string_sound. Qed.
+Print Assumptions C03_mode_fixed_distance_string_sound_e2e.
+
+(* LiteralAfterLoop_LeftToRight: the record findLiteralFollowingLeadingLoop publishes *)
+Theorem C03_mode_literal_after_loop_sound_e2e :
+  forall (e : env) (fuel : nat) (root : node) (bumpq : Z -> Z) (later_useful : bool),
+    shape_ok false root = true -> no_ci_lit root = true -> look_ok root = true ->
+    (forall x, 0 <= x <= tlen e -> exists r, attempt e fuel root x = Ok r) ->
+    sc_H3 st (tlen e) false (bp_exec e fuel root bumpq) ->
+    forall (cat_in : Z -> Z -> bool) (sets : list cls),
+    forallb cls_good_b sets = true ->
+    (forall id x, set_in e id x = char_in cat_in (set_cls sets id) x) ->
+    tlen e < INF ->
+    forall (part_cc : Z -> bool) (L : lal) (g : fdopts),
+    find_lit_after_loop cat_in part_cc sets root = Ok (Some L) ->
+    (forall b, lal_what L = LalString b false -> valid_utf8 b = true) ->
+    (forall u, 65 <= u <= 90 -> lower e u = u + 32) ->
+    forallb valid_rune (txt e) = true ->
+    fo_mode g = FM_LiteralAfterLoop_LeftToRight -> fo_minreq g = f_min (facts false later_useful root) ->
+    fo_lal g = Some (cf_lal L) ->
+    forall start prevlen, 0 <= start <= tlen e ->
+    exists r, find e fuel root false start prevlen = Ok r /\
+      scan (tlen e) false (f_min (facts false later_useful root))
+           (fd_total (fd_optimized_finder (txt e) (set_in e) (lower e) g))
+           (bp_exec e fuel root bumpq) start prevlen = Ok r.
+Proof. exact cf_mode_literal_after_loop_sound. Qed.
+Print Assumptions C03_mode_literal_after_loop_sound_e2e.
+
+(* LeadingStrings_LeftToRight (ic = false) / LeadingStrings_OrdinalIgnoreCase_LeftToRight (ic = true) *)
+Theorem C03_mode_leading_strings_sound_e2e :
+  forall (e : env) (fuel : nat) (root : node) (bumpq : Z -> Z) (later_useful : bool),
+    shape_ok false root = true -> no_ci_lit root = true -> look_ok root = true ->
+    (forall x, 0 <= x <= tlen e -> exists r, attempt e fuel root x = Ok r) ->
+    sc_H3 st (tlen e) false (bp_exec e fuel root bumpq) ->
+    forall (cat_in : Z -> Z -> bool) (sets : list cls),
+    forallb cls_good_b sets = true ->
+    (forall id x, set_in e id x = char_in cat_in (set_cls sets id) x) ->
+    forall (part_cc : Z -> bool) (ic : bool) (ps : list (list Z)) (g : fdopts),
+    find_prefixes cat_in part_cc sets ic root = Some ps -> ps <> [] ->
+    (ic = true -> forall u, 65 <= u <= 90 -> lower e u = u + 32) ->
+    fo_mode g = (if ic then FM_LeadingStrings_OrdinalIgnoreCase_LeftToRight else FM_LeadingStrings_LeftToRight) ->
+    fo_minreq g = f_min (facts false later_useful root) -> fo_prefixes g = ps ->
+    (ic = false -> fo_first_runes g = fd_leading_prefix_first_runes ps) ->
+    forall (set_in' : Z -> Z -> bool) start prevlen, 0 <= start <= tlen e ->
+    exists r, find e fuel root false start prevlen = Ok r /\
+      scan (tlen e) false (f_min (facts false later_useful root))
+           (fd_total (fd_optimized_finder (txt e) set_in' (lower e) g))
+           (bp_exec e fuel root bumpq) start prevlen = Ok r.
+Proof. exact cf_mode_leading_strings_sound. Qed.
+Print Assumptions C03_mode_leading_strings_sound_e2e.
+
+(* LeadingString_OrdinalIgnoreCase_LeftToRight: the ASCII string findPrefixOrdinalCaseInsensitive computes *)
+Theorem C03_mode_leading_string_ignore_case_sound_e2e :
+  forall (e : env) (fuel : nat) (root : node) (bumpq : Z -> Z) (later_useful : bool),
+    shape_ok false root = true -> no_ci_lit root = true -> look_ok root = true ->
+    (forall x, 0 <= x <= tlen e -> exists r, attempt e fuel root x = Ok r) ->
+    sc_H3 st (tlen e) false (bp_exec e fuel root bumpq) ->
+    forall (cat_in : Z -> Z -> bool) (sets : list cls),
+    forallb cls_good_b sets = true ->
+    (forall id x, set_in e id x = char_in cat_in (set_cls sets id) x) ->
+    tlen e < INF ->
+    forall (part_cc : Z -> bool) (g : fdopts),
+    (forall u, 65 <= u <= 90 -> lower e u = u + 32) ->
+    fo_mode g = FM_LeadingString_OrdinalIgnoreCase_LeftToRight -> fo_minreq g = f_min (facts false later_useful root) ->
+    fo_prefix g = ci_prefix cat_in part_cc sets root ->
+    forall (set_in' : Z -> Z -> bool) start prevlen, 0 <= start <= tlen e ->
+    exists r, find e fuel root false start prevlen = Ok r /\
+      scan (tlen e) false (f_min (facts false later_useful root))
+           (fd_total (fd_optimized_finder (txt e) set_in' (lower e) g))
+           (bp_exec e fuel root bumpq) start prevlen = Ok r.
+Proof. exact cf_mode_leading_string_ic_sound. Qed.
+Print Assumptions C03_mode_leading_string_ignore_case_sound_e2e.
+
+(* RequiredLandmarkChain_LeftToRight: the chain findRequiredLandmarkChain publishes (runner code as repaired) *)
+Theorem C03_mode_landmark_chain_sound_e2e :
+  forall (e : env) (fuel : nat) (root : node) (bumpq : Z -> Z) (later_useful : bool),
+    shape_ok false root = true -> no_ci_lit root = true -> look_ok root = true ->
+    (forall x, 0 <= x <= tlen e -> exists r, attempt e fuel root x = Ok r) ->
+    sc_H3 st (tlen e) false (bp_exec e fuel root bumpq) ->
+    forall (cat_in : Z -> Z -> bool) (sets : list cls),
+    tlen e < INF -> lits_ok root = true ->
+    forall (loop : Z) (lms : list (list lm_alt)) (g : fdopts),
+    find_landmark_chain cat_in sets root = Some (loop, lms) ->
+    fo_mode g = FM_RequiredLandmarkChain_LeftToRight -> fo_minreq g = f_min (facts false later_useful root) ->
+    fo_chain g = Some (cf_chain loop lms) ->
+    forall start prevlen, 0 <= start <= tlen e ->
+    exists r, find e fuel root false start prevlen = Ok r /\
+      scan (tlen e) false (f_min (facts false later_useful root))
+           (fd_total (fd_optimized_finder (txt e) (set_in e) (lower e) g))
+           (bp_exec e fuel root bumpq) start prevlen = Ok r.
+Proof. exact cf_mode_landmark_chain_sound. Qed.
+Print Assumptions C03_mode_landmark_chain_sound_e2e.
+
+(* the legacy first-character loop of findFirstCharDefault (Code.FcPrefix = getFirstCharsPrefix), BOTH directions,
+   no anchor bit, no Boyer-Moore prefix, no optimized finder in use.  [fc] / [set_in'] are how the runner reads
+   the record (singleton fast path or CharIn of PrefixSet): it must accept every rune the class accepts. *)
+Theorem C03_mode_first_chars_sound_e2e :
+  forall (e : env) (fuel : nat) (root : node) (bumpq : Z -> Z) (rtl : bool),
+    shape_ok rtl root = true -> no_ci_lit root = true ->
+    (forall x, 0 <= x <= tlen e -> exists r, attempt e fuel root x = Ok r) ->
+    sc_H3 st (tlen e) rtl (bp_exec e fuel root bumpq) ->
+    forall (cat_in : Z -> Z -> bool) (sets : list cls),
+    forallb cls_good_b sets = true ->
+    (forall id x, set_in e id x = char_in cat_in (set_cls sets id) x) ->
+    (forall i, 0 <= char_at e i <= 1114111) -> lits_ok root = true ->
+    forall (to_lower : Z -> Z) (C : cls) (ci : bool) (set_in' : Z -> Z -> bool) (fc : fdfc) (o : option fdopts),
+    first_chars_prefix cat_in to_lower sets root = Ok (Some (C, ci)) ->
+    (forall x, char_in cat_in C x = true -> fd_fc_test set_in' fc x = true) ->
+    (forall o', o = Some o' -> fd_should_use_optimized o' = false) ->
+    forall start prevlen, 0 <= start <= tlen e ->
+    exists r, find e fuel root rtl start prevlen = Ok r /\
+      scan (tlen e) rtl (min_len root)
+           (fd_total (fd_find_first_char_default (txt e) set_in' (lower e) rtl 0 (tstart e) None None o (Some fc)))
+           (bp_exec e fuel root bumpq) start prevlen = Ok r.
+Proof. exact cf_mode_first_chars_sound. Qed.
+Print Assumptions C03_mode_first_chars_sound_e2e.
+
+(* ... with the canonical reading of the record: set id 0 answered by CharIn of PrefixSet *)
+Theorem C03_mode_first_chars_sound_e2e_canonical :
+  forall (e : env) (fuel : nat) (root : node) (bumpq : Z -> Z) (rtl : bool),
+    shape_ok rtl root = true -> no_ci_lit root = true ->
+    (forall x, 0 <= x <= tlen e -> exists r, attempt e fuel root x = Ok r) ->
+    sc_H3 st (tlen e) rtl (bp_exec e fuel root bumpq) ->
+    forall (cat_in : Z -> Z -> bool) (sets : list cls),
+    forallb cls_good_b sets = true ->
+    (forall id x, set_in e id x = char_in cat_in (set_cls sets id) x) ->
+    (forall i, 0 <= char_at e i <= 1114111) -> lits_ok root = true ->
+    forall (to_lower : Z -> Z) (C : cls) (ci : bool),
+    first_chars_prefix cat_in to_lower sets root = Ok (Some (C, ci)) ->
+    forall start prevlen, 0 <= start <= tlen e ->
+    exists r, find e fuel root rtl start prevlen = Ok r /\
+      scan (tlen e) rtl (min_len root)
+           (fd_total (fd_find_first_char_default (txt e) (fun _ x => char_in cat_in C x) (lower e) rtl 0 (tstart e)
+                        None None None (Some {| fc_singleton := None; fc_set := 0 |})))
+           (bp_exec e fuel root bumpq) start prevlen = Ok r.
+Proof. exact cf_mode_first_chars_sound_canonical. Qed.
+Print Assumptions C03_mode_first_chars_sound_e2e_canonical.
+
+(* ---- witnesses on concrete trees: the analysis publishes, the finder skips, the two scans agree ---- *)
+Definition e2_sets : list cls := [ranges_cls [(98, 99)]].                       (* set 0 = [bc] *)
+Definition e2_cat : Z -> Z -> bool := fun _ _ => false.
+Definition e2_env (t : list Z) : env :=
+  {| txt := t; tstart := 0; ecma := false; endz_strict := false;
+     set_in := fun id x => char_in e2_cat (set_cls e2_sets id) x;
+     lower := fun r => if (65 <=? r) && (r <=? 90) then r + 32 else r;
+     is_word := fun _ => false; is_eword := fun _ => false |}.
+Definition e2_opts (m minreq : Z) (P : list Z) (Ps : list (list Z)) (c : Z) (s : list Z) (d : Z)
+                   (S : list Finder.fdset) (l : option fdlal) (ch : option fdchain) : fdopts :=
+  {| fo_mode := m; fo_minreq := minreq; fo_prefix := P; fo_prefixes := Ps;
+     fo_first_runes := fd_leading_prefix_first_runes Ps; fo_fdl_c := c; fo_fdl_s := s; fo_fdl_distance := d;
+     fo_sets := S; fo_lal := l; fo_chain := ch |}.
+
+(* a[bc]d on "xxabda": three sets at distances 0, 1, 2 (the middle one answered through CharIn of the
+   published structure); from 0 the finder jumps to 2, from 3 it gives up *)
+Definition e2_fixed : node := NCapture 0 0 (-1) (NConcat 0 [NChar COne 0 97; NChar CSet 0 0; NChar COne 0 100]).
+Definition e2_fixed_L : list Analysis2.fdset := find_fixed_distance_sets e2_cat e2_sets false e2_fixed.
+Definition e2_fixed_g : fdopts :=
+  e2_opts FM_FixedDistanceSets_LeftToRight 3 [] [] 0 [] 0 (cf_fdsets e2_fixed_L) None None.
+Example C03_mode_fixed_distance_sets_e2e_witness :
+  let e := e2_env [120; 120; 97; 98; 100; 97] in
+  let F := fd_optimized_finder (txt e) (cf_set_in e2_cat e2_fixed_L) (lower e) e2_fixed_g in
+  map (fun f0 => (fs_chars f0, fs_dist f0)) e2_fixed_L = [([97], 0); ([98; 99], 1); ([100], 2)] /\
+  f_min (facts false false e2_fixed) = 3 /\
+  F 0 = Ok (true, 2) /\ F 3 = Ok (false, 6) /\
+  find e 10 e2_fixed false 0 (-1) = Ok (Some {| pos := 5; caps := [(0, [(2, 3)])] |}) /\
+  scan 6 false 3 (fd_total F) (bp_exec e 10 e2_fixed (fun p => p)) 0 (-1)
+    = Ok (Some {| pos := 5; caps := [(0, [(2, 3)])] |}).
+Proof. vm_compute. repeat split; reflexivity. Qed.
+
+(* ... and every hypothesis of the theorem holds for it, so the theorem applies (all starts, all prevlen) *)
+Example C03_mode_fixed_distance_sets_e2e_applies :
+  let e := e2_env [120; 120; 97; 98; 100; 97] in
+  forall start prevlen, 0 <= start <= 6 ->
+  exists r, find e 10 e2_fixed false start prevlen = Ok r /\
+    scan 6 false 3 (fd_total (fd_optimized_finder (txt e) (cf_set_in e2_cat e2_fixed_L) (lower e) e2_fixed_g))
+         (bp_exec e 10 e2_fixed (fun p => p)) start prevlen = Ok r.
+Proof.
+  cbv zeta. intros start prevlen Hs.
+  apply (C03_mode_fixed_distance_sets_sound_e2e (e2_env [120; 120; 97; 98; 100; 97]) 10 e2_fixed (fun p => p) false)
+    with (cat_in := e2_cat) (sets := e2_sets) (thorough := false) (L := e2_fixed_L).
+  - reflexivity.
+  - reflexivity.
+  - reflexivity.
+  - intros x Hx. change (tlen (e2_env [120; 120; 97; 98; 100; 97])) with 6 in Hx.
+    assert (Hc : x = 0 \/ x = 1 \/ x = 2 \/ x = 3 \/ x = 4 \/ x = 5 \/ x = 6) by lia.
+    destruct Hc as [->|[->|[->|[->|[->|[->| ->]]]]]]; eexists; vm_compute; reflexivity.
+  - apply C03_H3_without_bumpalong. reflexivity.
+  - reflexivity.
+  - intros id x. reflexivity.
+  - intros i. unfold char_at. cbn [txt e2_env].
+    destruct (Z.to_nat i) as [|[|[|[|[|[|k]]]]]]; cbn [nth]; try lia. destruct k; lia.
+  - vm_compute. reflexivity.
+  - reflexivity.
+  - vm_compute. discriminate.
+  - intros f0 H. exact H.
+  - right. reflexivity.
+  - vm_compute. reflexivity.
+  - reflexivity.
+  - exact Hs.
+Qed.
+
+(* [bc]ad : FixedDistanceString "ad" at distance 1; FixedDistanceChar 'a' at distance 1 *)
+Definition e2_fdstr : node := NCapture 0 0 (-1) (NConcat 0 [NChar CSet 0 0; NMulti 0 [97; 100]]).
+Example C03_mode_fixed_distance_string_e2e_witness :
+  let e := e2_env [120; 98; 120; 99; 97; 100] in
+  let gs := e2_opts FM_FixedDistanceString_LeftToRight 3 [] [] 0 [97; 100] 1 [] None None in
+  let gc := e2_opts FM_FixedDistanceChar_LeftToRight 3 [] [] 97 [] 1 [] None None in
+  find_fixed_distance_string (find_fixed_distance_sets e2_cat e2_sets false e2_fdstr) = Some ([97; 100], 1) /\
+  map fds_single (find_fixed_distance_sets e2_cat e2_sets false e2_fdstr) = [None; Some 97; Some 100] /\
+  f_min (facts false false e2_fdstr) = 3 /\
+  fd_optimized_finder (txt e) (set_in e) (lower e) gs 0 = Ok (true, 3) /\
+  fd_optimized_finder (txt e) (set_in e) (lower e) gc 0 = Ok (true, 3) /\
+  find e 10 e2_fdstr false 0 (-1) = Ok (Some {| pos := 6; caps := [(0, [(3, 3)])] |}) /\
+  scan 6 false 3 (fd_total (fd_optimized_finder (txt e) (set_in e) (lower e) gs)) (bp_exec e 10 e2_fdstr (fun p => p)) 0 (-1)
+    = Ok (Some {| pos := 6; caps := [(0, [(3, 3)])] |}) /\
+  scan 6 false 3 (fd_total (fd_optimized_finder (txt e) (set_in e) (lower e) gc)) (bp_exec e 10 e2_fdstr (fun p => p)) 0 (-1)
+    = Ok (Some {| pos := 6; caps := [(0, [(3, 3)])] |}).
+Proof. vm_compute. repeat split; reflexivity. Qed.
+
+(* [bc]*d+ on "xabcbdd": literal 'd' after the loop set [bc]; the finder finds 'd' at 5 and walks back to 2 *)
+Definition e2_lal : node :=
+  NCapture 0 0 (-1) (NConcat 0 [NCharLoop CSet LGreedy 0 0 0 INF; NCharLoop COne LGreedy 0 100 1 INF]).
+Example C03_mode_literal_after_loop_e2e_witness :
+  let e := e2_env [120; 97; 98; 99; 98; 100; 100] in
+  let L := {| lal_loop := 0; lal_what := LalChar 100 |} in
+  let g := e2_opts FM_LiteralAfterLoop_LeftToRight 1 [] [] 0 [] 0 [] (Some (cf_lal L)) None in
+  find_lit_after_loop e2_cat (fun _ => true) e2_sets e2_lal = Ok (Some L) /\
+  f_min (facts false false e2_lal) = 1 /\
+  fd_optimized_finder (txt e) (set_in e) (lower e) g 0 = Ok (true, 2) /\
+  find e 10 e2_lal false 0 (-1) = Ok (Some {| pos := 7; caps := [(0, [(2, 5)])] |}) /\
+  scan 7 false 1 (fd_total (fd_optimized_finder (txt e) (set_in e) (lower e) g)) (bp_exec e 10 e2_lal (fun p => p)) 0 (-1)
+    = Ok (Some {| pos := 7; caps := [(0, [(2, 5)])] |}).
+Proof. vm_compute. repeat split; reflexivity. Qed.
+
+(* (?:ab|cd)[bc] on "xacdcab": the prefixes "ab", "cd" with first runes [a; c] *)
+Definition e2_pref : node :=
+  NCapture 0 0 (-1) (NConcat 0 [NAlternate 0 [NMulti 0 [97; 98]; NMulti 0 [99; 100]]; NChar CSet 0 0]).
+Example C03_mode_leading_strings_e2e_witness :
+  let e := e2_env [120; 97; 99; 100; 99; 97; 98] in
+  let g := e2_opts FM_LeadingStrings_LeftToRight 3 [] [[97; 98]; [99; 100]] 0 [] 0 [] None None in
+  find_prefixes e2_cat (fun _ => true) e2_sets false e2_pref = Some [[97; 98]; [99; 100]] /\
+  fo_first_runes g = [97; 99] /\ f_min (facts false false e2_pref) = 3 /\
+  fd_optimized_finder (txt e) (set_in e) (lower e) g 0 = Ok (true, 2) /\
+  find e 10 e2_pref false 0 (-1) = Ok (Some {| pos := 5; caps := [(0, [(2, 3)])] |}) /\
+  scan 7 false 3 (fd_total (fd_optimized_finder (txt e) (set_in e) (lower e) g)) (bp_exec e 10 e2_pref (fun p => p)) 0 (-1)
+    = Ok (Some {| pos := 5; caps := [(0, [(2, 3)])] |}).
+Proof. vm_compute. repeat split; reflexivity. Qed.
+
+(* [Aa][Bb]! (what (?i)ab! parses to) on "xxAb!": the ignore-case prefix "ab!" *)
+Definition e3_sets : list cls := [ranges_cls [(65, 65); (97, 97)]; ranges_cls [(66, 66); (98, 98)]].
+Definition e3_part (c : Z) : bool := ((65 <=? c) && (c <=? 90)) || ((97 <=? c) && (c <=? 122)).
+Definition e3_ci : node := NCapture 0 0 (-1) (NConcat 0 [NChar CSet 0 0; NChar CSet 0 1; NChar COne 0 33]).
+Example C03_mode_leading_string_ignore_case_e2e_witness :
+  let e := {| txt := [120; 120; 65; 98; 33]; tstart := 0; ecma := false; endz_strict := false;
+              set_in := fun id x => char_in e2_cat (set_cls e3_sets id) x;
+              lower := fun r => if (65 <=? r) && (r <=? 90) then r + 32 else r;
+              is_word := fun _ => false; is_eword := fun _ => false |} in
+  let g := e2_opts FM_LeadingString_OrdinalIgnoreCase_LeftToRight 3 [97; 98; 33] [] 0 [] 0 [] None None in
+  ci_prefix e2_cat e3_part e3_sets e3_ci = [97; 98; 33] /\ f_min (facts false false e3_ci) = 3 /\
+  fd_optimized_finder (txt e) (set_in e) (lower e) g 0 = Ok (true, 2) /\
+  find e 10 e3_ci false 0 (-1) = Ok (Some {| pos := 5; caps := [(0, [(2, 3)])] |}) /\
+  scan 5 false 3 (fd_total (fd_optimized_finder (txt e) (set_in e) (lower e) g)) (bp_exec e 10 e3_ci (fun p => p)) 0 (-1)
+    = Ok (Some {| pos := 5; caps := [(0, [(2, 3)])] |}).
+Proof. vm_compute. repeat split; reflexivity. Qed.
+
+(* [bc]+a[bc]+d[bc]+ on "xbbacdb": leading loop [bc]+, landmarks 'a' then 'd' *)
+Definition e2_chain : node :=
+  NCapture 0 0 (-1) (NConcat 0 [NCharLoop CSet LGreedy 0 0 1 INF; NChar COne 0 97; NCharLoop CSet LGreedy 0 0 1 INF;
+                                NChar COne 0 100; NCharLoop CSet LGreedy 0 0 1 INF]).
+Example C03_mode_landmark_chain_e2e_witness :
+  let e := e2_env [120; 98; 98; 97; 99; 100; 98] in
+  match find_landmark_chain e2_cat e2_sets e2_chain with
+  | Some (loop, lms) =>
+      let g := e2_opts FM_RequiredLandmarkChain_LeftToRight 5 [] [] 0 [] 0 [] None (Some (cf_chain loop lms)) in
+      loop = 0 /\ map (map la_lit) lms = [[[97]]; [[100]]] /\ f_min (facts false false e2_chain) = 5 /\
+      fd_optimized_finder (txt e) (set_in e) (lower e) g 0 = Ok (true, 1) /\
+      find e 10 e2_chain false 0 (-1) = Ok (Some {| pos := 7; caps := [(0, [(1, 6)])] |}) /\
+      scan 7 false 5 (fd_total (fd_optimized_finder (txt e) (set_in e) (lower e) g)) (bp_exec e 10 e2_chain (fun p => p)) 0 (-1)
+        = Ok (Some {| pos := 7; caps := [(0, [(1, 6)])] |})
+  | None => False
+  end.
+Proof. vm_compute. repeat split; reflexivity. Qed.
+
+(* right-to-left [^a]b (evaluation order: b first) on "xbab" from the end: FcPrefix = {b} read at p-1 *)
+Definition e2_fc_rtl : node := NCapture 64 0 (-1) (NConcat 64 [NChar COne 64 98; NChar CNotone 64 97]).
+Example C03_mode_first_chars_e2e_witness :
+  let e := e2_env [120; 98; 97; 98; 120] in
+  match first_chars_prefix e2_cat (fun r => r) [] e2_fc_rtl with
+  | Ok (Some (C, ci)) =>
+      let F := fd_find_first_char_default (txt e) (fun _ x => char_in e2_cat C x) (lower e) true 0 (tstart e)
+                 None None None (Some {| fc_singleton := None; fc_set := 0 |}) in
+      ranges C = [(98, 98)] /\ ci = false /\ min_len e2_fc_rtl = 2 /\
+      F 5 = Ok (true, 4) /\ F 3 = Ok (true, 2) /\ F 1 = Ok (false, 0) /\
+      find e 10 e2_fc_rtl true 5 (-1) = Ok (Some {| pos := 0; caps := [(0, [(0, 2)])] |}) /\
+      scan 5 true 2 (fd_total F) (bp_exec e 10 e2_fc_rtl (fun p => p)) 5 (-1)
+        = Ok (Some {| pos := 0; caps := [(0, [(0, 2)])] |})
+  | _ => False
+  end.
+Proof. vm_compute. repeat split; reflexivity. Qed.
+
+(* findFirstCharDefault ANSWERS at every position of the text: Ok (found, Runtextpos), never a slice / index
+   fault (Crash) nor an exhausted loop (Fuel) - for every Code.Anchors, \G position, Boyer-Moore oracle and
+   FcPrefix; an optimized finder in use needs the fact of its mode (the side conditions that make the published
+   distances usable as indices are part of it).  Feeds C10. *)
+Theorem C03_finder_default_answers_ok :
+  forall (R : Type) (text : list Z) (exec : Z -> option R * Z) (set_in : Z -> Z -> bool) (lower : Z -> Z)
+         (rtl : bool) (anchors ts : Z) (bm : option (Z -> bool)) (bm_scan : option (Z -> Z))
+         (o : option fdopts) (fc : option fdfc),
+    (forall o', o = Some o' -> fd_should_use_optimized o' = true ->
+       fd_minlen_fact R text exec (fo_minreq o') /\ fd_mode_fact R text exec set_in lower o') ->
+    forall p, 0 <= p <= zlen text ->
+    exists r, fd_find_first_char_default text set_in lower rtl anchors ts bm bm_scan o fc p = Ok r.
+Proof. exact cf_default_finder_answers_ok. Qed.
+Print Assumptions C03_finder_default_answers_ok.
